@@ -66,7 +66,27 @@ impl World {
 
 	pub fn observe_emit(&mut self, from: usize, to: usize, m: &WireMsg) {
 		if let WireMsg::Add(a) = m {
+			let first = !self.oracle.adds_emitted.contains_key(&(a.payment_hash.0, from));
 			self.oracle.adds_emitted.entry((a.payment_hash.0, from)).or_default().push((a.amount_msat, a.cltv_expiry));
+			// C08-1: a node never forwards an HTLC that is about to expire (the sender of a payment
+			// may offer whatever it likes; retransmissions after a reconnect are not new decisions)
+			let origin = self.pays.iter().any(|p| p.hash == a.payment_hash && p.from == from);
+			if first && !origin {
+				self.out.bump("oracle:C08-1 no forward of an HTLC about to expire");
+				let h = self.nodes[from].synced_height;
+				if a.cltv_expiry <= h + crate::deadlines::LATENCY_GRACE_PERIOD_BLOCKS {
+					self.violate(
+						"C08",
+						"C08-1 forwarded an HTLC that expires too soon",
+						format!(
+							"node {} (height {}) forwards an HTLC to node {} with cltv_expiry {}",
+							from, h, to, a.cltv_expiry
+						),
+					);
+				} else if a.cltv_expiry <= h + 8 {
+					self.out.bump("probe:forwarded_htlc_within_8_blocks_of_expiry");
+				}
+			}
 		}
 		let li = match self.ledger_for_msg(from, to, m) {
 			Some(l) => l,
@@ -198,7 +218,9 @@ impl World {
 			return;
 		}
 		let ups = self.oracle.adds_delivered.get(&(add.payment_hash.0, from)).cloned().unwrap_or_default();
-		let up = ups.iter().find(|(a, _)| *a == path.hop_amts[i]).cloned();
+		// parts of one multi-part payment may carry the same amount with different expiries: the
+		// forward is judged against the matching inbound HTLC with the latest expiry
+		let up = ups.iter().filter(|(a, _)| *a == path.hop_amts[i]).max_by_key(|(_, c)| *c).cloned();
 		let (amt_up, cltv_up) = match up {
 			Some(x) => x,
 			None => {
